@@ -1236,6 +1236,7 @@ func (s *Store) streamBackupDB(ctx context.Context, name string, remotePos ltx.P
 
 	// Compact LTX files through a pipe so we can pass it to the backup client.
 	pr, pw := io.Pipe()
+	defer func() { _ = pr.Close() }() // unblock the compaction if the client stops reading early
 	var pos ltx.Pos
 	go func() {
 		compactor := ltx.NewCompactor(pw, rdrs)
@@ -1277,6 +1278,7 @@ func (s *Store) streamBackupDBSnapshot(ctx context.Context, db *DB) (newPos ltx.
 
 	// Run snapshot through a goroutine so we can pipe it to the backup writer.
 	pr, pw := io.Pipe()
+	defer func() { _ = pr.Close() }() // unblock the snapshot, which holds database locks, if the client stops reading early
 	go func() {
 		header, trailer, err := db.WriteSnapshotTo(ctx, pw)
 		v.Store(ltx.NewPos(header.MaxTXID, trailer.PostApplyChecksum))
